@@ -27,6 +27,11 @@ pub enum Mode {
     Fault,
     /// step number `at` calls `std::process::abort()` after dumping log + undo journal
     Abort,
+    /// step number `at` and EVERY later step return an injected io::Error (nothing is performed any
+    /// more); log + undo journal are dumped when step `at` is reached.  Since every mutating file
+    /// operation is preceded by a step, the files stay exactly as process death at step `at` would
+    /// leave them; the caller then drops the engine.  (Crash simulation without a child process.)
+    Freeze,
 }
 
 #[derive(Clone, Debug)]
@@ -113,6 +118,17 @@ pub fn reset_counter() {
 
 pub fn fired() -> bool {
     lock().fired
+}
+
+/// Forget the step log and the undo journal (a new, unrelated database directory follows).
+pub fn clear_all() {
+    let mut s = lock();
+    s.log.clear();
+    s.journal.clear();
+    s.counter = 0;
+    s.fired = false;
+    s.mode = Mode::Log;
+    s.at = u64::MAX;
 }
 
 pub fn take_log() -> Vec<StepRec> {
@@ -203,6 +219,14 @@ pub fn step(kind: &'static str, file: &Path, offset: u64, len: u64) -> io::Resul
     }
     let n = s.counter;
     s.counter += 1;
+    if s.mode == Mode::Freeze && n >= s.at {
+        if !s.fired {
+            s.fired = true;
+            s.log.push(StepRec { kind: "ABORT", file: short(file), offset, len });
+            dump(&s);
+        }
+        return Err(io::Error::other("verif: frozen"));
+    }
     if n == s.at && !s.fired {
         match s.mode {
             Mode::Log => {}
@@ -217,6 +241,7 @@ pub fn step(kind: &'static str, file: &Path, offset: u64, len: u64) -> io::Resul
                 dump(&s);
                 std::process::abort();
             }
+            Mode::Freeze => {}
         }
     }
     s.log.push(StepRec { kind, file: short(file), offset, len });
